@@ -24,6 +24,8 @@ DB == M([x |-> N(2), s |-> S("q"), l |-> L(<<S("u")>>)])
 DC == M([x |-> Null, l |-> L(<<N(1), N(1)>>)])
 DW1 == M([w |-> N(1), x |-> N(1)])
 DW2 == M([w |-> N(2)])
+DE0 == M([w |-> N(3), l |-> L(<<>>)])            \* an element whose list is empty
+DL0 == M([x |-> N(1), l |-> L(<<>>)])
 
 \* 1 empty graph
 GEmpty == [vs |-> <<>>, V |-> <<>>, es |-> <<>>, E |-> <<>>]
@@ -36,7 +38,7 @@ GChain == [vs |-> <<"a", "b", "c">>,
            E |-> [e1 |-> ERec("K1", "a", "b", DW1), e2 |-> ERec("K2", "b", "c", D0)]]
 \* 4 self loop and parallel edges
 GLoop == [vs |-> <<"a", "b">>,
-          V |-> [a |-> VRec("L1", DA), b |-> VRec("L1", DB)],
+          V |-> [a |-> VRec("L1", DA), b |-> VRec("L1", DL0)],
           es |-> <<"e1", "e2", "e3">>,
           E |-> [e1 |-> ERec("K1", "a", "a", D0), e2 |-> ERec("K1", "a", "b", DW1), e3 |-> ERec("K1", "a", "b", DW2)]]
 \* 5 edges whose source / destination / both are absent (z, y are not vertices)
@@ -54,7 +56,7 @@ GFan == [vs |-> <<"a", "b", "c">>,
          V |-> [a |-> VRec("L1", DA), b |-> VRec("L1", DB), c |-> VRec("L2", DA)],
          es |-> <<"e1", "e2", "e3", "e4">>,
          E |-> [e1 |-> ERec("K1", "a", "b", DW1), e2 |-> ERec("K1", "a", "c", DW2),
-                e3 |-> ERec("K2", "b", "c", DW1), e4 |-> ERec("K2", "c", "a", D0)]]
+                e3 |-> ERec("K2", "b", "c", DW1), e4 |-> ERec("K2", "c", "a", DE0)]]
 
 GraphFamily == <<GEmpty, GIso, GChain, GLoop, GDangle, GShared, GFan>>
 =======================================================================
